@@ -320,7 +320,7 @@ PROPS["C11"] = {
 PROPS["C15"] = {
     "confirm_reruns": True,
     "id": "C15",
-    "lean_modules": ["JT.Props.C15", "JT.Props.C16"],
+    "lean_modules": ["JT.Props.C15", "JT.Props.C16", "JT.Props.C10"],
     "functional_ops": ["att"],
     "rule": ("upload sessions against a real attachment server subprocess (default handlers; scratch working directory), for each of the five active-safety dialects (HLJ with its length-prefixed chunk header): 1..3 files "
              "(sizes 1 B .. 70 kB; names: plain, containing the chunk marker 30316364, random bytes; content with embedded markers; alarm ids containing '01cd'), each file split into a random partition (chunk lengths 1..65536), "
@@ -330,8 +330,10 @@ PROPS["C15"] = {
     "technique": "Lean 4 proof about a model of the per-file bookkeeping (CurrentSize/offset map/ordered assembly) and the session reply function, for all tilings, arrival orders and resends + socket scenarios on the real server compared with the model and with a brute-force oracle",
     "level_text": ("Machine-checked Lean 4 theorems: for EVERY file size and content, EVERY split of the file into pieces (any number, any sizes >= 1) and EVERY arrival sequence over those pieces (any order, any repetitions): CurrentSize equals the number of distinct bytes received, "
                    "the record is complete iff every piece has arrived, the assembled body is then byte-identical to the original, further resends change neither; every control frame is answered exactly once and chunks never; the 0x1212 answer is the exact missing-range list (C16 theorems). "
-                   "Partial: recognition of control frames vs chunks inside the byte stream and independence from TCP segmentation are NOT proved; they are decided by executing random write partitions and marker-bearing names/ids/content against the real server on every run."),
-    "level_note": "Trusted: Lean kernel; model tied by sampled socket scenarios; sysd/sock harness. Stream classification and segmentation independence are tested, not proved.",
+                   "Over the model of the connection loop (JT/Model/AttStream.lean: classification of the buffered bytes into chunks and control frames, chunk headers of all dialects, the three control-frame parsers): for EVERY byte stream and EVERY partition into reads the events handed to the file handler and the final verdict equal those of the stream arriving in one read "
+                   "(prefix stability of each processing round, induction over the reads) — a control frame is recognised and answered wherever the read boundaries fall. "
+                   "Partial: that the two models are the code is the sampled correspondence (upload sessions on the real server for five dialects with random write partitions and marker-bearing names/ids/content; stage sequences of valid and mutated streams)."),
+    "level_note": "Trusted: Lean kernel; models (per-file bookkeeping, connection loop) tied by sampled socket scenarios; sysd/sock harness.",
     "trusted_base": [KERNEL, AXIOMS, HARNESS, _SOCK_TB[3], "model lean/JT/Model/Attach.lean: offset map as a function, chunks lie inside the file; pieces come from a partition of the file (the property's 'any split'); overlapping chunks at different offsets are outside the model and the property"],
     "assumptions": ["chunks are pieces of one partition of the file (resends repeat a piece exactly)", "file names are distinct and non-empty; sizes >= 1"],
     "shrink": False,
